@@ -3,7 +3,9 @@
 proof gate (coq/Props/C20.v)
 + correspondence (vm_compute): EventHandler <-> Model/Events.v, DictCache (+sub-caches) over Storage /
   PickleStorage / Hdf5Storage, without and with the worker thread <-> Model/Cache.v,
-  ThreadedStorage + Worker under harness-enforced worker schedules <-> Model/CacheThread.v
+  ThreadedStorage + Worker under harness-enforced worker schedules <-> Model/CacheThread.v,
+  the same with close() / __exit__ calls in the program <-> Model/CacheClose.v (cl_run, via Model/CacheCloseCheck.v),
+  PickleStorage trees with sub-containers and close() <-> Model/CacheFile.v (fs_run, via Model/CacheFileCheck.v)
 + oracle: a plain dict per cache / a plain list of listeners, a 5 s deadline as deadlock detector,
   injected disk failures that must surface as WorkerDied.
 """
@@ -599,6 +601,12 @@ def replay(ctx):
     elif stream == 'sched-storage':
         import c20_sched
         c20_sched.check_storage_cases(ctx, [inp['case']])
+    elif stream == 'file-storage':
+        import c20_sched
+        c20_sched.check_fs_cases(ctx, [inp['case']])
+    elif stream == 'sched-close':
+        import c20_sched
+        c20_sched.check_close_cases(ctx, [inp['case']])
     else:
         ctx.notes.append('replay file has no recorded input (proof obligation or runner failure): running the full check')
         return None
@@ -608,7 +616,7 @@ def replay(ctx):
 def main(ctx):
     import time
     t0 = time.time()
-    ctx.proof = common.check_proofs('C20')
+    ctx.proof = common.check_proofs('C20', extra_targets=['Model/CacheCloseCheck.vo', 'Model/CacheFileCheck.vo'])
     boost = 1 if ctx.proof.ok else 3         # intensified search when an obligation is broken
     if ctx.replay_in:
         rc = replay(ctx)
@@ -626,10 +634,14 @@ def main(ctx):
         c20_sched = None
     if c20_sched is not None:
         c20_sched.stream_sched(ctx, boost)
+        c20_sched.stream_sched_close(ctx, boost)
+        c20_sched.stream_file_storage(ctx, boost)
     ctx.assumptions += [
         'C20 model: keys and values are integers; callbacks are abstracted to their return value',
         'C20 not modelled: CPython GIL and queue.Queue internals (assumed a linearizable FIFO with blocking put/get/join), '
-        'the real disk (pickle / h5py), logging; close()/__exit__ are oracle-checked only',
+        'the real disk beyond one file per key (pickle / h5py internals), logging; close()/__exit__ of the CacheFile/DictCache layer and of '
+        'sub-containers of a ThreadedStorage are oracle-checked only (ThreadedStorage.close + Worker.__exit__: Model/CacheClose.v, '
+        'stream sched-close; PickleStorage sub-containers and close: Model/CacheFile.v, stream file-storage)',
     ]
     return ctx.finish(RULE, EXPLANATION)
 
@@ -639,6 +651,8 @@ RULE = ('events: every connect/disconnect/emit/emit_until sequence up to length 
         'alphabet on one key, plus random sequences (length <= 12 quick / 40 thorough) over 4 keys and up to 4 nested (sub-)caches for '
         'Storage / PickleStorage / Hdf5Storage, with and without the worker thread; non-trivial = at least one write and one read.  '
         'sched: worker schedules enforced by gates at the synchronisation points (see harness/c20_sched.py); distinct = distinct '
-        '(storage, queue size, program, schedule).')
+        '(storage, queue size, program, schedule).  sched-close: two fixed programs with close() under every schedule string of length 6 plus '
+        'random programs with 0-3 close()/__exit__ calls; non-trivial = a close and another operation.  file-storage: random operation '
+        'sequences on a PickleStorage tree of depth <= 3; non-trivial = a save, a subcontainer and a close.')
 EXPLANATION = ('theorems of coq/Props/C20.v (all histories, all schedules of the model); models tied to the code by vm_compute '
                'evaluation of every generated trace; oracle = plain dict / plain listener list / 5 s deadline')
